@@ -104,7 +104,7 @@ let events_of_obs (s : string) : event list * int =
 
 (* ---- symbolic tokens -------------------------------------------------- *)
 let zopt s = if s = "-" then None else Some (z_of_int (int_of_string s))
-let key_of_name s = bytes_of_hex (match s with "S" -> "53" | "O" -> "4f" | "X" -> "58" | "E" -> "45" | "Q" -> "51" | _ -> "3f")
+let key_of_name s = bytes_of_hex (match s with "S" -> "53" | "O" -> "4f" | "X" -> "58" | "E" -> "45" | "Q" -> "51" | "T" -> "54" | _ -> "3f")
 let alg_of_name = function "HS256" -> HS256 | "HS384" -> HS384 | "HS512" -> HS512 | "RS256" -> RS256
                          | "none" -> AlgNone | _ -> AlgOther
 (* claims fields: iss exp nbf iat host ip at [sub] *)
@@ -234,8 +234,20 @@ let handle (fields : string list) : string * string =
     let bad = List.filter (fun e -> match e with
         | Resp (ty, st, raw) -> not (Model.c16_resp_ok rd cfg.c_idle ty st raw)
         | _ -> false) ievs in
+    (* the status that follows a refusal names the refusal (C16_cookie_rejection_code, C16_host_denial_code) *)
+    let rec denial_ok = function
+      | AskCookie (_, false) :: rest ->
+        (match List.find_opt (function Resp _ -> true | _ -> false) rest with
+         | Some (Resp (_, st, _)) when st <> Model.e_PROXY_COOKIE_AUTHENTICATION_ACCESS_DENIED -> Some "cookie-refusal-reported-with-another-status"
+         | _ -> denial_ok rest)
+      | AskHost (_, false) :: rest ->
+        (match List.find_opt (function Resp _ -> true | _ -> false) rest with
+         | Some (Resp (_, st, _)) when st <> Model.e_PROXY_RAP_ACCESSDENIED -> Some "host-denial-reported-with-another-status"
+         | _ -> denial_ok rest)
+      | _ :: rest -> denial_ok rest
+      | [] -> None in
     let verdict = match bad with
-      | [] -> "ok"
+      | [] -> (match denial_ok ievs with None -> "ok" | Some w -> "fail:" ^ w)
       | Resp (ty, _, _) :: _ -> Printf.sprintf "fail:malformed-or-untruthful-response-type-%d" (int_of_n ty)
       | _ -> "fail:response" in
     (m, verdict)
